@@ -55,11 +55,13 @@ type VerifNode struct {
 type VerifTx struct {
 	Key   string `json:"key"`
 	Count uint8  `json:"count"`
+	Timer bool   `json:"timer"` // a retransmission timer object exists
 }
 
 type VerifRx struct {
 	Key    string `json:"key"`
 	Cached bool   `json:"cached"`
+	Timer  bool   `json:"timer"` // a retention timer object exists
 }
 
 type VerifDump struct {
@@ -155,11 +157,11 @@ func (s *PfcpServer) VerifDumpState() VerifDump {
 		addNode(n)
 	}
 	for k, rx := range s.rxTrans {
-		d.Rx = append(d.Rx, VerifRx{Key: k, Cached: len(rx.msgBuf) > 0})
+		d.Rx = append(d.Rx, VerifRx{Key: k, Cached: len(rx.msgBuf) > 0, Timer: rx.timer != nil})
 	}
 	sort.Slice(d.Rx, func(i, j int) bool { return d.Rx[i].Key < d.Rx[j].Key })
 	for k, tx := range s.txTrans {
-		d.Tx = append(d.Tx, VerifTx{Key: k, Count: tx.retransCount})
+		d.Tx = append(d.Tx, VerifTx{Key: k, Count: tx.retransCount, Timer: tx.timer != nil})
 	}
 	sort.Slice(d.Tx, func(i, j int) bool { return d.Tx[i].Key < d.Tx[j].Key })
 	return d
